@@ -187,7 +187,7 @@ def eager_definition(times, comps):
         nb = int(math.ceil(Fraction(float(c["lead"])) / Fraction(float(dt))))
         na = int(math.ceil(Fraction(float(c["trail"])) / Fraction(float(dt))))
         grid = np.concatenate((times[0] - dt * np.arange(nb, 0, -1), times, times[-1] + dt * np.arange(1, na + 1)))
-        vals = np.asarray(c["fn"](grid - c["t0"]), dtype=float) * c["fac"]
+        vals = call_fn(c["fn"], grid - c["t0"]) * c["fac"]
         if c["filters"]:
             m = len(vals)
             freqs = scipy.fft.fftfreq(2 * m, d=dt)
@@ -218,7 +218,42 @@ def pulse_fn(kind, c, w, a, b):
         return lambda t: np.where(t < c, float(a), float(b)) + 0.25 * t
     if kind == 2:
         return lambda t: a * np.abs(t - c) + b
-    return lambda t: a * np.sin(1.5 * (t - c)) / (1.0 + ((t - c) / w) ** 2)
+    if kind == 3:
+        return lambda t: a * np.sin(1.5 * (t - c)) / (1.0 + ((t - c) / w) ** 2)
+    # functions written for ONE time at a time (math.*, `if`): they reject arrays, the signal must fall back to
+    # evaluating them sample by sample (with the same time origin handling as the vectorised route)
+    if kind == 4:
+        return lambda t: a * math.exp(-((float(t) - c) / w) ** 2)
+    return lambda t: (float(a) if float(t) < c else float(b)) + 0.25 * float(t)
+
+
+def call_fn(fn, ts):
+    """evaluate a backing function on an array of times: at once, or one sample at a time when it rejects arrays"""
+    try:
+        return np.asarray(fn(ts), dtype=float)
+    except (TypeError, ValueError):
+        return np.asarray([fn(t) for t in ts], dtype=float)
+
+
+class TabulatedResponse:
+    """a frequency response served from a table the caller keeps (memoised per frequency grid): every call with the
+    same frequencies returns THE SAME complex128 array object.  The table must never be modified by the signal
+    code, and evaluating a signal twice must give the same values."""
+
+    def __init__(self, delay):
+        self.delay, self.tables, self.pristine = delay, {}, {}
+        self.__name__ = "tabulated_%s" % delay
+
+    def __call__(self, f):
+        f = np.asarray(f, dtype=float)
+        key = (len(f), float(f[1]) if len(f) > 1 else 0.0, float(f[-1]) if len(f) else 0.0)
+        if key not in self.tables:
+            self.tables[key] = np.exp(-2j * np.pi * f * self.delay) / (1 + (np.abs(f) / 1.5) ** 2)
+            self.pristine[key] = np.array(self.tables[key])
+        return self.tables[key]
+
+    def modified(self):
+        return [k for k in self.tables if not np.array_equal(self.tables[k], self.pristine[k])]
 
 
 def shadow_copy(sh):
@@ -261,6 +296,7 @@ class FunHistory:
             """trivial user subclass"""
         self.Sub = SubFunctionSignal
         self.rng = rng
+        self.tables = {}      # tabulated responses kept by the caller
         self.live = []        # list of [object, shadow]
         self.log = []
         self._new_source()
@@ -285,7 +321,7 @@ class FunHistory:
             vt = "voltage"
         else:
             c = start + rng.randint(-6, n + 6) * dt * rng.choice([1, 0.5])
-            fn = pulse_fn(rng.randrange(4), c, rng.choice([0.5, 1.0, 2.0]), rng.choice([-2, -1, 1, 2, 3]), rng.randint(-2, 2))
+            fn = pulse_fn(rng.randrange(6), c, rng.choice([0.5, 1.0, 2.0]), rng.choice([-2, -1, 1, 2, 3]), rng.randint(-2, 2))
             obj = (self.Sub if r < 0.3 else FunctionSignal)(times, fn, vt)
         sh = {"times": np.array(times), "vt": vt,
               "comps": [{"fn": fn, "t0": 0, "fac": 1, "lead": 0, "trail": 0, "filters": []}]}
@@ -317,7 +353,11 @@ class FunHistory:
             for c in sh["comps"]:
                 c["fac"] = c["fac"] * arg if op == "imul" else c["fac"] / arg
         elif op in ("filter", "filter_real"):
-            f = lowpass if arg == "lowpass" else delay_filter(arg)
+            if isinstance(arg, str) and arg.startswith("table"):
+                # the SAME response object (and table) is re-used for every signal of the history
+                f = self.tables.setdefault(arg, TabulatedResponse(float(arg[5:])))
+            else:
+                f = lowpass if arg == "lowpass" else delay_filter(arg)
             s.filter_frequencies(f, force_real=(op == "filter_real"))
             for c in sh["comps"]:
                 c["filters"].append((f, op == "filter_real"))
@@ -402,7 +442,7 @@ class FunHistory:
         elif op == "idiv":
             arg = rng.choice([2.0, -4.0, 0.5])
         elif op in ("filter", "filter_real"):
-            arg = rng.choice([0.5, 1.0, 2.0, "lowpass"])
+            arg = rng.choice([0.5, 1.0, 2.0, "lowpass", "table0.5", "table1.0", "table0.5"])
             if sum(len(c["filters"]) for c in sh["comps"]) > 6:
                 return None
         elif op in ("set_buffers", "set_buffers_force"):
@@ -432,7 +472,7 @@ class FunHistory:
         elif op in ("mul_new", "rmul_new", "div_new"):
             arg = rng.choice([2.0, -0.5, 4.0])
         elif op == "add_fun":
-            arg = (rng.randrange(4), float(sh["times"][0]) + rng.randint(-4, n + 4) * dt, rng.choice([0.5, 1.0]), rng.choice([-1, 1, 2]), rng.randint(-1, 1))
+            arg = (rng.randrange(6), float(sh["times"][0]) + rng.randint(-4, n + 4) * dt, rng.choice([0.5, 1.0]), rng.choice([-1, 1, 2]), rng.randint(-1, 1))
         elif op == "add_sibling":
             same = [j for j, (o2, sh2) in enumerate(self.live)
                     if len(sh2["times"]) == n and np.array_equal(sh2["times"], sh["times"]) and
@@ -447,6 +487,9 @@ class FunHistory:
 
     def check(self):
         """every live object against its own definition; returns None or a description"""
+        for name, tab in self.tables.items():
+            if tab.modified():
+                return "the caller's response table %s was modified by evaluating a signal" % name
         for i, (s, sh) in enumerate(self.live):
             got = np.array(s.values, dtype=float)
             fresh = np.array(fresh_function_signal(s).values, dtype=float)
@@ -466,6 +509,9 @@ class FunHistory:
                     i, np.array2string(got[:6], precision=6), np.array2string(rebuilt[:6], precision=6))
             if not np.array_equal(np.asarray(s.times, dtype=float), sh["times"]):
                 return "live object %d: times differ from its own definition" % i
+            for name, tab in self.tables.items():
+                if tab.modified():
+                    return "the caller's response table %s was modified by evaluating live object %d" % (name, i)
         return None
 
 
@@ -806,11 +852,39 @@ def q_same(a, b):
         return False
 
 
+ARG_POOL = {"f": np.array([1.0e8, 3.0e8, 7.5e8]), "z": -150.0}
+
+
+def method_accessors(obj):
+    """every public method of the object's class whose required parameters can all be supplied from ARG_POOL:
+    called with the SAME arguments before and after attribute assignments, it is a derived quantity like any other"""
+    import inspect
+    out = []
+    for name in sorted(dir(type(obj))):
+        if name.startswith("_"):
+            continue
+        fn = getattr(type(obj), name, None)
+        if not inspect.isfunction(fn):
+            continue
+        try:
+            req = [p.name for p in list(inspect.signature(fn).parameters.values())[1:]
+                   if p.default is inspect.Parameter.empty and p.kind in (p.POSITIONAL_ONLY, p.POSITIONAL_OR_KEYWORD)]
+        except (TypeError, ValueError):
+            continue
+        if req and all(r in ARG_POOL for r in req):
+            out.append("call:%s:%s" % (name, ",".join(req)))
+    return out
+
+
 def q_read(obj, names):
     out = {}
     for nm in names:
         try:
-            v = getattr(obj, nm)
+            if nm.startswith("call:"):
+                _, meth, req = nm.split(":")
+                v = getattr(obj, meth)(*[ARG_POOL[r] for r in req.split(",")])
+            else:
+                v = getattr(obj, nm)
         except Exception as e:
             v = "EXC:" + type(e).__name__
         if nm == "solutions" and not isinstance(v, str):
@@ -900,7 +974,7 @@ class SharedTracerHistory:
             if not tr or self.kind == "BasicRayTracer" or not self.take_path(r.choice(tr)):
                 return False
         elif k == "read":
-            q_read(obj, r.sample(self.names(kind), r.randint(1, 3)))
+            q_read(obj, r.sample(self.names(kind, obj), r.randint(1, 3)))
             self.log.append(["read", i])
         elif k == "aug":
             a = r.choice(["from_point", "to_point"])
@@ -949,11 +1023,14 @@ class SharedTracerHistory:
         # fill caches of a random subset so that later staleness is observable
         for l in self.live:
             if r.random() < 0.6:
-                q_read(l[0], self.names(l[2]))
+                q_read(l[0], self.names(l[2], l[0]))
         return True
 
-    def names(self, kind):
-        return self.P_NAMES if kind == "path" else self.T_NAMES[self.kind]
+    def names(self, kind, obj=None):
+        base = self.P_NAMES if kind == "path" else self.T_NAMES[self.kind]
+        if obj is not None and type(obj).__name__ != "BasicRayTracePath":
+            return base + method_accessors(obj)      # methods with (repeated) arguments are accessors too
+        return base
 
     def fresh(self, kind, d, obj):
         if kind == "tracer":
@@ -970,7 +1047,7 @@ class SharedTracerHistory:
     def check(self):
         for i, entry in enumerate(self.live):
             obj, sh, kind = entry[:3]
-            names = [nm for nm in self.names(kind) if not (nm == "solutions" and id(obj) in self.tainted)]
+            names = [nm for nm in self.names(kind, obj) if not (nm == "solutions" and id(obj) in self.tainted)]
             cur = {k: getattr(obj, k) for k in sh}
             for k in sh:
                 ok = np.array_equal(cur[k], sh[k]) if isinstance(sh[k], np.ndarray) else (cur[k] is sh[k] or cur[k] == sh[k])
@@ -1197,6 +1274,10 @@ def run(ctx):
         ctx.oblige("gen:lazy_table", False, str(e)[-1200:])
     pin_changed = bool(data) and data["core_hash"] != CORE_PIN
     if data:
+        memos = {c: v["memo_attrs"] for c, v in data["classes"].items() if v.get("memo_attrs")}
+        ctx.extra["memo_attrs"] = memos
+        ctx.oblige("gen:no-hidden-memo-attributes", not memos,
+                   "methods store results in attributes that are neither static nor _lazy_* (never dropped by _clear_cache): %s" % memos)
         ctx.extra["private_nonstatic_reads"] = {c: v["private_nonstatic_reads"] for c, v in data["classes"].items()
                                                 if v.get("private_nonstatic_reads")}
     ctx.extra["core_pin"] = {"expected": CORE_PIN, "found": data["core_hash"] if data else None, "changed": pin_changed}
